@@ -24,6 +24,14 @@ class USBError(IOError):
     pass
 
 
+POLL_BUDGET = 2000
+
+
+class Stuck(BaseException):
+    """raised into the tool by the simulated device when the bounded-progress budget is exhausted (not an `Exception`: the tool's own
+    handlers must not swallow it)"""
+
+
 class Device:
     """busy[k] = list of poll delays (ms) for the k-th DNLOAD operation: each entry is one GETSTATUS answered with
     dfuDNBUSY; `final_delay[k]` is the bwPollTimeout sent with the completing answer.  errors[k] = status code the
@@ -59,6 +67,8 @@ class Device:
         self.error_reports = []  # (op index, status) actually delivered to the host in a GETSTATUS reply
         self.sleeps = []
         self.clear_count = 0
+        self.gone = False
+        self.idle_polls = 0      # consecutive GETSTATUS requests answered while nothing was pending
 
     # ---- virtual clock
     def sleep(self, t):
@@ -72,8 +82,20 @@ class Device:
     def ctrl_transfer(self, bmRequestType, bRequest, wValue=0, wIndex=0, data_or_wLength=None, timeout=None):
         if self.now + 1e-9 < self.not_before:
             self.violations.append('request %d issued at t=%.6fs, before the announced poll delay ended (t=%.6fs)' % (bRequest, self.now, self.not_before))
+        if self.gone:
+            self.log.append((self.now, 'REQUEST-%d-AFTER-LEAVE' % bRequest, None))
+            raise USBError('[Errno 19] No such device (it may have been disconnected)')
         if bRequest == 3:
+            if self.pending is None and self.state not in (DNLOAD_SYNC, DNBUSY):
+                self.idle_polls += 1
+                if self.idle_polls > POLL_BUDGET:
+                    # bounded progress instead of "eventually": a tool that keeps asking a device that has nothing left to do never ends
+                    raise Stuck('the tool polled GETSTATUS %d times in a row while the device had no operation pending (state %d): '
+                                'it waits for something that will not happen' % (self.idle_polls, self.state))
+            else:
+                self.idle_polls = 0
             return self.getstatus(bmRequestType, data_or_wLength)
+        self.idle_polls = 0
         if bRequest == 4:
             self.log.append((self.now, 'CLRSTATUS', None))
             self.clear_count += 1
@@ -104,9 +126,11 @@ class Device:
             # lenient device: silently leaves the error state and carries on
             self.state, self.status = IDLE, 0
         if len(data) == 0:
-            # zero-length DNLOAD = end of download / DfuSe "leave": no erase, no write; manifestation is not modelled further
+            # zero-length DNLOAD = end of download / DfuSe "leave": no erase, no write; the bootloader manifests, jumps to the address
+            # pointer and is gone from the bus - every later request fails the way pyusb reports a vanished device
             self.log.append((self.now, 'LEAVE', None))
             self.state = IDLE
+            self.gone = True
             return 0
         self.pending = (wValue, data)
         k = self.nops
@@ -227,7 +251,7 @@ def load_dfu(optimize=False):
 
 
 class Run:
-    __slots__ = ('dev', 'stdout', 'code', 'crash', 'done_printed')
+    __slots__ = ('dev', 'stdout', 'code', 'crash', 'done_printed', 'stuck')
 
 
 _TMP = None
@@ -269,6 +293,7 @@ def run(firmware, dev, device_id='28e9:0189', via_fifo=False, optimize=False):
     r.dev = dev
     r.code = 0
     r.crash = None
+    r.stuck = None
     try:
         with contextlib.redirect_stdout(buf), contextlib.redirect_stderr(buf):
             dfu.cli_main()
@@ -277,6 +302,9 @@ def run(firmware, dev, device_id='28e9:0189', via_fifo=False, optimize=False):
         if not isinstance(r.code, int):
             buf.write(str(r.code))        # python prints a non-int exit argument to stderr and exits 1
             r.code = 1
+    except Stuck as e:
+        r.stuck = str(e)          # the real tool would still be running: neither an exit status nor a last line of output exists
+        r.code = None
     except BaseException:  # noqa: an uncaught exception = traceback on stderr + exit status 1
         r.crash = traceback.format_exc()
         buf.write(r.crash)
